@@ -2,6 +2,7 @@ package sim
 
 import (
 	"context"
+	"encoding/json"
 	"fmt"
 	"runtime"
 	"sort"
@@ -43,6 +44,7 @@ func (v *Violation) Has(prop string) bool {
 }
 
 type Program struct {
+	Prop       string `json:"prop,omitempty"` // the property this program was generated for (its own oracles stop the run; others resync and go on)
 	Engine     string `json:"engine"`
 	Seed       uint64 `json:"seed"`
 	OnDisk     bool   `json:"ondisk,omitempty"`
@@ -90,36 +92,38 @@ type RunStats struct {
 }
 
 type RunResult struct {
-	Violation *Violation `json:"violation,omitempty"`
-	Stats     RunStats   `json:"stats"`
-	Trouble   string     `json:"trouble,omitempty"` // machinery problem (not a violation)
-	Log       []string   `json:"log,omitempty"`
-	CrashAt   int        `json:"crash_at,omitempty"`
-	Torn      bool       `json:"torn,omitempty"`
+	Violation *Violation   `json:"violation,omitempty"`
+	All       []*Violation `json:"all,omitempty"` // every oracle that fired (concurrent runs); Violation is the first
+	Stats     RunStats     `json:"stats"`
+	Trouble   string       `json:"trouble,omitempty"` // machinery problem (not a violation)
+	Log       []string     `json:"log,omitempty"`
+	CrashAt   int          `json:"crash_at,omitempty"`
+	Torn      bool         `json:"torn,omitempty"`
 }
 
 type e1 struct {
-	p         *Program
-	w         *World
-	w2        *World // optional second bucket
-	env       Env
-	docs      []map[string]Doc // per collection
-	docs2     map[string]Doc   // second bucket, default collection
-	names     map[string]bool  // xattr names ever used
-	live      []*FeedLog       // one live feed per collection
-	liveIdx   []int
-	live2     *FeedLog
-	live2Idx  int
-	maxCas    uint64                                // highest CAS seen on any document (including caller-supplied WithMeta values)
-	maxIssued uint64                                // highest CAS handed out by the clock (regular writes)
-	clockBack uint64                                // how far the HLC's physical clock has been set back (nanoseconds)
-	ddocs     map[int]map[string]map[string]viewDef // collection -> design doc -> view -> definition
-	casHist   map[string][]uint64                   // per coll/key: CAS values seen (for "stale")
-	ctx       OpCtx
-	res       *RunResult
-	step      int
-	feedN     int
-	logOn     bool
+	p            *Program
+	w            *World
+	w2           *World // optional second bucket
+	env          Env
+	docs         []map[string]Doc // per collection
+	docs2        map[string]Doc   // second bucket, default collection
+	names        map[string]bool  // xattr names ever used
+	live         []*FeedLog       // one live feed per collection
+	liveIdx      []int
+	live2        *FeedLog
+	live2Idx     int
+	maxCas       uint64                                // highest CAS seen on any document (including caller-supplied WithMeta values)
+	maxIssued    uint64                                // highest CAS handed out by the clock (regular writes)
+	clockBack    uint64                                // how far the HLC's physical clock has been set back (nanoseconds)
+	maxBucketCas uint64                                // highest CAS of a committed transaction of the (on-disk) bucket: what a restart may rely on
+	ddocs        map[int]map[string]map[string]viewDef // collection -> design doc -> view -> definition
+	casHist      map[string][]uint64                   // per coll/key: CAS values seen (for "stale")
+	ctx          OpCtx
+	res          *RunResult
+	step         int
+	feedN        int
+	logOn        bool
 }
 
 func (e *e1) logf(format string, args ...any) {
@@ -303,13 +307,24 @@ func (e *e1) run() {
 		v := e.doOp(op)
 		vfs.ClearFaults() // a planned fault that this step did not reach is dropped, it never leaks into the next step
 		if v != nil {
-			e.res.Violation = v
-			break
+			e.res.All = append(e.res.All, v)
+			if p.Prop == "" || v.Has(p.Prop) || len(e.res.All) > 6 {
+				e.res.Violation = e.res.All[0]
+				break
+			}
+			// An oracle of ANOTHER property fired. Its check reports it; this run re-learns the
+			// documents from what rosmar now says and goes on, so that one defect does not
+			// hide what this property's own oracles would see later in the history.
+			e.resyncAll()
+			e.probe("foreign-violation-resynced")
 		}
 		if e.res.Trouble != "" {
 			break
 		}
 		time.Sleep(time.Millisecond)
+	}
+	if e.res.Violation == nil && len(e.res.All) > 0 {
+		e.res.Violation = e.res.All[0]
 	}
 	e.res.Stats.Ops = len(p.Ops)
 	e.res.Stats.SimSeconds = time.Since(start).Seconds()
@@ -360,6 +375,8 @@ func (e *e1) doOp(op *Op) *Violation {
 		return e.doQuery(op)
 	case "RecreateColl":
 		return e.doRecreateColl(op)
+	case "HLCBurst":
+		return e.doHLCBurst(op)
 	}
 	ds, bucket, docs := e.target(op)
 	d := docs[op.Key]
@@ -384,11 +401,11 @@ func (e *e1) doOp(op *Op) *Violation {
 		// return an error; then the document, the feeds and everything else must be unchanged.
 		e.logf("#%d %s -> failed under injected %s   [%s unchanged]", e.step, op, kind, d.State())
 		e.probe("fault.op-failed:" + kind)
-		if v := e.checkLive(op, StepOut{OK: true, Next: d}); v != nil {
-			v.Tags = append(v.Tags, "C01")
-			return v
+		vLive := e.checkLive(op, StepOut{OK: true, Next: d})
+		if vLive != nil {
+			vLive.Tags = append(vLive.Tags, "C01")
 		}
-		return e.readBack(op, "body", true)
+		return e.pick(vLive, e.readBack(op, "body", true))
 	}
 	out := Step(d, op, &r, e.env)
 	cell := fmt.Sprintf("%s|%s|%s", d.State(), op.Kind, orOK(r.Err))
@@ -400,7 +417,11 @@ func (e *e1) doOp(op *Op) *Violation {
 	if !out.OK {
 		v := e.violate(out.Tags, "outcome:"+op.Kind, "step %d %s on %s: %s", e.step, op, d, out.Why)
 		v.Detail = r.ErrText
+		e.skipLive()
 		return v
+	}
+	if r.Commits > 0 && r.NewCas > e.maxBucketCas && op.Handle != 9 {
+		e.maxBucketCas = r.NewCas
 	}
 	if out.Mutated {
 		n := out.Next
@@ -432,15 +453,89 @@ func (e *e1) doOp(op *Op) *Violation {
 			e.maxIssued = r.NewCas
 		}
 	}
-	// live feed events
-	if v := e.checkLive(op, out); v != nil {
-		return v
+	// live feed events, then read-back through every observer: both oracles run, and the one that
+	// belongs to the property under check is the one reported
+	vLive := e.checkLive(op, out)
+	vRead := e.readBack(op, out.Family, r.Err != "")
+	return e.pick(vLive, vRead)
+}
+
+// pick returns the violation that belongs to the property this program was generated for, else
+// the first one.
+func (e *e1) pick(vs ...*Violation) *Violation {
+	var first *Violation
+	for _, v := range vs {
+		if v == nil {
+			continue
+		}
+		if first == nil {
+			first = v
+		}
+		if e.p.Prop != "" && v.Has(e.p.Prop) {
+			return v
+		}
 	}
-	// read-back through every observer
-	if v := e.readBack(op, out.Family, r.Err != ""); v != nil {
-		return v
+	for _, v := range vs {
+		if v != nil && v != first {
+			e.res.All = append(e.res.All, v)
+		}
 	}
-	return nil
+	return first
+}
+
+// skipLive forgets the events delivered so far (after a step whose outcome the model rejected).
+func (e *e1) skipLive() {
+	for ci, f := range e.live {
+		e.liveIdx[ci] = len(f.Snapshot())
+	}
+	if e.live2 != nil {
+		e.live2Idx = len(e.live2.Snapshot())
+	}
+}
+
+// resyncAll re-learns every document from rosmar's own answers.
+func (e *e1) resyncAll() {
+	e.skipLive()
+	names := append(e.allNames(), "$document")
+	learn := func(ds sgbucket.DataStore, docs map[string]Doc, key string) {
+		body, xv, cas, err := ds.GetWithXattrs(context.Background(), key, names)
+		if err != nil {
+			delete(docs, key)
+			return
+		}
+		d := Doc{Exists: true, HasBody: body != nil, Body: string(body), JSON: -1, Cas: cas, X: map[string]string{}}
+		for k, v := range xv {
+			if k == "$document" {
+				var vd struct {
+					Rev string `json:"revid"`
+				}
+				_ = json.Unmarshal(v, &vd)
+				fmt.Sscanf(vd.Rev, "%d", &d.Rev)
+				continue
+			}
+			d.X[k] = string(v)
+		}
+		if exp, err := ds.GetExpiry(context.Background(), key); err == nil {
+			d.Exp = exp
+		}
+		if old, ok := docs[key]; ok && old.Cas == cas {
+			d.JSON, d.Meta = old.JSON, old.Meta
+		}
+		docs[key] = d
+		if cas > e.maxCas {
+			e.maxCas = cas
+		}
+	}
+	for ci := range e.docs {
+		for _, k := range e.allKeys() {
+			learn(e.w.Colls[0][ci], e.docs[ci], k)
+		}
+	}
+	if e.w2 != nil {
+		for _, k := range e.allKeys() {
+			learn(e.w2.Colls[0][0], e.docs2, k)
+		}
+	}
 }
 
 // checkLive compares what the live feeds received since the previous step with the one
@@ -507,7 +602,9 @@ func compareEvent(o ObsEvent, x *ExpEvent, base string) (string, []string) {
 	if o.Opcode != wantOp {
 		return fmt.Sprintf("opcode %s, expected %s (document has body: %v)", o.Opcode, wantOp, x.HasBody), []string{base, "C05"}
 	}
-	if o.HasBody != x.HasBody || o.Body != x.Body {
+	if x.HasBody && x.Body == "" && !o.HasBody && len(x.X) > 0 {
+		// a zero-length body inside the xattr framing of an event cannot be told from no body
+	} else if o.HasBody != x.HasBody || o.Body != x.Body {
 		return fmt.Sprintf("body %q(has=%v), expected %q(has=%v)", o.Body, o.HasBody, x.Body, x.HasBody), []string{base}
 	}
 	for k, v := range x.X {
@@ -818,6 +915,11 @@ func (e *e1) doReopen(op *Op) *Violation {
 	synctest.Wait()
 	e.w.Handles[0].Close(context.Background())
 	synctest.Wait()
+	downtime := 0
+	if e.p.Prop == "C14" && !restart && e.p.OnDisk {
+		downtime = op.Dur % 50 // simulated seconds during which the bucket is not open anywhere
+		time.Sleep(time.Duration(downtime) * time.Second)
+	}
 	mode := rosmar.OpenMode(rosmar.ReOpenExisting)
 	if !e.p.OnDisk {
 		mode = rosmar.CreateOrOpen // the data of an in-memory bucket outlives its handles
@@ -830,6 +932,9 @@ func (e *e1) doReopen(op *Op) *Violation {
 		back := e.clockBack
 		rosmar.VerifSetClock(func() uint64 { return uint64(time.Now().UnixNano()) - back })
 		e.probe("restart.clock-earlier")
+		// timestamps drawn straight from the clock (bursts) or by another bucket were never persisted by
+		// this bucket: after a restart only what it committed itself is a lower bound
+		e.maxIssued = e.maxBucketCas
 	}
 	b, err := rosmar.OpenBucket(e.w.URL, e.w.Name, mode)
 	if err != nil {
@@ -857,7 +962,14 @@ func (e *e1) doReopen(op *Op) *Violation {
 		e.liveIdx[i] = 0
 	}
 	synctest.Wait()
-	e.logf("#%d Reopen", e.step)
+	e.logf("#%d Reopen (closed for %d s)", e.step, downtime)
+	if downtime > 0 {
+		// whatever came due while the bucket was closed must be expired shortly after the reopen
+		if v := e.doAdvance(&Op{Kind: "Advance", Dur: 7, WOpt: 1}); v != nil {
+			v.Msg = "after a close, " + fmt.Sprint(downtime) + " s of downtime and a reopen: " + v.Msg
+			return v
+		}
+	}
 	for ci, docs := range e.docs {
 		for _, k := range e.allKeys() {
 			if why, tags, what := e.readKey(e.w.Colls[0][ci], e.w.Handles[0], docs, ci, k); why != "" {
@@ -955,6 +1067,30 @@ func (e *e1) doAdvance(op *Op) *Violation {
 	for ci, docs := range e.docs {
 		for _, k := range keysOf(docs, "") {
 			d := docs[k]
+			if op.WOpt == 1 && d.Exists && d.Exp != 0 && !d.ExpAny && d.Exp <= now {
+				// Right after a reopen the expiry timer may fire before any feed is registered again, so
+				// the deletion event can legitimately have gone to nobody: look at the document itself.
+				var names []string
+				for n := range d.X {
+					names = append(names, n)
+				}
+				names = append(names, "$document")
+				_, xv, cas, err := e.w.Colls[0][ci].GetWithXattrs(context.Background(), k, names)
+				if _, _, gerr := e.w.Colls[0][ci].GetRaw(k); gerr != nil && err == nil && cas != d.Cas {
+					n := tombstoneOf(d)
+					n.Rev, n.Cas = d.Rev+1, cas
+					_ = xv
+					docs[k] = n
+					if cas > e.maxCas {
+						e.maxCas = cas
+					}
+					if cas > e.maxIssued {
+						e.maxIssued = cas
+					}
+					e.probe("expiry.fired-unobserved-after-reopen")
+					continue
+				}
+			}
 			if d.HasBody && d.Exp != 0 && !d.ExpAny && d.Exp+grace <= now {
 				return e.violate([]string{"C14"}, "expiry.late", "step %d: %q (collection %d) has expiry %d but is still live at %d, %d s after its deadline, and no deletion event was delivered", e.step, k, ci, d.Exp, now, now-d.Exp)
 			}
@@ -1097,4 +1233,47 @@ func ioFailure(r *Res) bool {
 		return strings.Contains(t, "disk i/o") || strings.Contains(t, "disk is full") || strings.Contains(t, "database is locked") || strings.Contains(t, "sqlite")
 	}
 	return false
+}
+
+// For returns the violation of this run that belongs to prop (preferring the given oracle).
+func (r *RunResult) For(prop, oracle string) *Violation {
+	var first *Violation
+	cands := r.All
+	if len(cands) == 0 && r.Violation != nil {
+		cands = []*Violation{r.Violation}
+	}
+	for _, v := range cands {
+		if v.Has(prop) {
+			if oracle != "" && v.Oracle == oracle {
+				return v
+			}
+			if first == nil {
+				first = v
+			}
+		}
+	}
+	if oracle != "" {
+		return nil
+	}
+	return first
+}
+
+// doHLCBurst draws op.Dur timestamps straight from the process-wide hybrid logical clock (as that
+// many writes would) under whatever the clock adversary currently does: each must exceed the last.
+func (e *e1) doHLCBurst(op *Op) *Violation {
+	prev := e.maxIssued
+	for i := 0; i < op.Dur; i++ {
+		ts := rosmar.VerifHLCNow()
+		if ts <= prev {
+			return e.violate([]string{"C04"}, "cas.monotonic", "step %d: timestamp #%d of a burst of %d draws from the hybrid clock is %d, not above the previous %d", e.step, i, op.Dur, ts, prev)
+		}
+		prev = ts
+	}
+	e.maxIssued = prev
+	if prev > e.maxCas {
+		e.maxCas = prev
+	}
+	e.logf("#%d HLCBurst(%d)", e.step, op.Dur)
+	e.probe("hlc.burst")
+	return nil
 }
